@@ -239,3 +239,14 @@ func VerifBrokerState(b *TriggerBroker) map[int][]int {
 
 // VerifBrokerCount is the broker's connection counter (the fast-path guard of Distribute).
 func VerifBrokerCount(b *TriggerBroker) int { return b.nconnections }
+
+// VerifBroker is the source's trigger broker (valid after VerifPrepare).
+func (vs *VerifSource) VerifBroker() *TriggerBroker { return vs.broker }
+
+// VerifLanceroCoupling runs LanceroSource.SetCoupling against broker b for a TDM source of nchan channels.
+func VerifLanceroCoupling(b *TriggerBroker, nchan int, status CouplingStatus) error {
+	ls := new(LanceroSource)
+	ls.nchan = nchan
+	ls.broker = b
+	return ls.SetCoupling(status)
+}
